@@ -2,6 +2,7 @@ package main
 
 import (
 	"fmt"
+	"os"
 	"go/ast"
 	"go/constant"
 	"go/token"
@@ -64,6 +65,9 @@ type frame struct {
 
 	loopMeasure map[*loopInfo]Term
 	headerState map[*loopInfo]State
+	headerReach map[*loopInfo]Term
+	regionOut   map[*ssa.BasicBlock]int
+	entryRegion int
 	rangeOf     map[ssa.Value]ssa.Value
 	selects     map[*ssa.Select]bool
 	pendingAlloc []pendingAlloc
@@ -72,8 +76,8 @@ type frame struct {
 func (vc *VC) newFrame(fn *ssa.Function, con *Contract, depth int) *frame {
 	f := &frame{vc: vc, fn: fn, con: con, depth: depth,
 		vals: map[ssa.Value]Term{}, reachOut: map[*ssa.BasicBlock]Term{}, stOut: map[*ssa.BasicBlock]State{},
-		names: map[string][]nameDef{}, loopMeasure: map[*loopInfo]Term{}, headerState: map[*loopInfo]State{},
-		rangeOf: map[ssa.Value]ssa.Value{}, selects: map[*ssa.Select]bool{}}
+		names: map[string][]nameDef{}, loopMeasure: map[*loopInfo]Term{}, headerState: map[*loopInfo]State{}, headerReach: map[*loopInfo]Term{},
+		rangeOf: map[ssa.Value]ssa.Value{}, selects: map[*ssa.Select]bool{}, regionOut: map[*ssa.BasicBlock]int{}}
 	vc.nfresh++
 	f.prefix = fmt.Sprintf("f%d", vc.nfresh)
 	loops, err := findLoops(fn)
@@ -404,7 +408,14 @@ func (f *frame) walk(entryReach Term, entryState State) {
 		if b == f.fn.Blocks[0] {
 			f.reach = entryReach
 			f.cur = entryState.clone()
+			f.entryRegion = vc.regionStart
 		} else {
+			// the region (modular loop context) of a block is that of its immediate dominator
+			if d := b.Idom(); d != nil {
+				if r, ok := f.regionOut[d]; ok {
+					vc.regionStart = r
+				}
+			}
 			preds, terms, predIdx := f.edgesInto(b)
 			var inTerms []Term
 			var inPreds []*ssa.BasicBlock
@@ -458,6 +469,7 @@ func (f *frame) walk(entryReach Term, entryState State) {
 		}
 		f.reachOut[b] = f.reach
 		f.stOut[b] = f.cur
+		f.regionOut[b] = vc.regionStart
 		// back edges leaving this block
 		for si, s := range b.Succs {
 			if l2 := f.loops[s]; l2 != nil && l2.backPreds[b] {
@@ -619,7 +631,22 @@ func (f *frame) enterLoop(li *loopInfo, inPreds []*ssa.BasicBlock, inTerms []Ter
 		cond := f.evalClause(inv, envIn)
 		f.obligeNoAssume("inv-entry", fmt.Sprintf("loop %d [%d] %s", li.ordinal, k, inv.Text), inv.Props, b.Instrs[0].Pos(), cond)
 	}
-	// 2. havoc phis and modified state
+	// 2. havoc phis and modified state; the path that led here is forgotten too (the header's
+	// reachability becomes an unconstrained boolean), so everything needed later must be in the invariant
+	entryReachTerm := f.reach
+	// loops that change no state variable (only their own counters) stay transparent: facts about
+	// everything else flow through them; the others are verified modularly
+	if os.Getenv("GOCV_NOFORGET") == "" && (vc.pass == 1 || len(f.loopMods(li)) > 0) {
+		vc.regionStart = len(vc.lines)
+		f.reach = vc.freshConst(fmt.Sprintf("%s_rh%d", f.prefix, b.Index), SBool)
+	}
+	f.headerReach[li] = f.reach
+	// being at the header implies that the loop was entered: the conditions on the entry path (over
+	// values defined before the loop, which the loop cannot change) hold in every iteration. For a
+	// nested loop this also links it to the enclosing header, whose invariant therefore stays usable.
+	if f.reach.S != entryReachTerm.S {
+		vc.emit("(assert (=> " + f.reach.S + " " + entryReachTerm.S + ")) ;hdr")
+	}
 	for _, phi := range phis {
 		delete(f.vals, phi)
 		f.havocVal(phi)
@@ -628,12 +655,12 @@ func (f *frame) enterLoop(li *loopInfo, inPreds []*ssa.BasicBlock, inTerms []Ter
 		for _, k := range f.loopMods(li) {
 			if k == "$alloc" {
 				old := f.cur.get(vc, k)
-				n := vc.freshConst(stateSym(k), SInt)
+				n := vc.freshState(k)
 				vc.assume(App(SBool, ">=", n, old))
 				f.cur[k] = n
 				continue
 			}
-			f.cur[k] = vc.freshConst(stateSym(k), vc.stateSort[k])
+			f.cur[k] = vc.freshState(k)
 		}
 	}
 	// 3. assume invariants
@@ -642,7 +669,7 @@ func (f *frame) enterLoop(li *loopInfo, inPreds []*ssa.BasicBlock, inTerms []Ter
 		if !f.modeOK(inv.Mode) {
 			continue
 		}
-		vc.assume(Implies(f.reach, f.evalClause(inv, envH)))
+		vc.assumeHdr(Implies(f.reach, f.evalClause(inv, envH)))
 	}
 	f.headerState[li] = f.cur.clone()
 	if li.spec.Decreases != nil && f.modeOK(li.spec.Decreases.Mode) {
@@ -794,4 +821,20 @@ func (p *Program) srcText(pos token.Pos, want string) string {
 		}
 	}
 	return "?"
+}
+
+// frameAxiom: the function under contract has an assigns clause, and every store is checked
+// against it (obligation kind "frame"); hence at any point a cell that existed at entry and is
+// not listed still holds its entry value. Stated for a memory array just havocked at a loop header.
+func (f *frame) frameAxiom(name string) {
+	vc := f.vc
+	if vc.con == nil || !vc.con.HasAssigns || vc.topFrame == nil || !strings.HasPrefix(name, "Mem_") || f.depth > 0 {
+		return
+	}
+	sort := vc.stateSort[name]
+	elem := Sort(strings.TrimSuffix(strings.TrimPrefix(string(sort), "(Array Ref "), ")"))
+	r := Term{"qfr", SRef}
+	listed := vc.inLocs(r, name, vc.topLocs)
+	cond := And(App(SBool, "<", App(SInt, "root", r), vc.topFrame.entryAlloc), Not(listed))
+	vc.emit("(assert " + Forall([]Term{r}, Implies(cond, Eq(Select(f.cur[name], r, elem), Select(vc.entryTerm(name), r, elem)))).S + ") ;hdr")
 }
